@@ -156,7 +156,15 @@ func Call(t *Thread, f Value, args []Value, next Cont) error {
 		}
 		callable, ok := f.TryCallable()
 		if ok {
-			return t.call(callable, args, next)
+			c, h := t.CurrentCont(), t.closeStack.size()
+			err := t.call(callable, args, next)
+			if err != nil && t.closeStack.size() > h {
+				// The error has unwound scopes with pending to-be-closed
+				// values: they must be closed before the caller (possibly the
+				// embedding program) regains control.
+				err = t.cleanupCloseStack(c, h, err)
+			}
+			return err
 		}
 		if depth >= maxCallChainLength {
 			return errCallChainTooLong
